@@ -51,6 +51,16 @@ def check_extensions(inst: "MdParserConfig", field: dc.Field, value: Any) -> Non
     setattr(inst, field.name, set(value))
 
 
+def check_disable_syntax(inst: "MdParserConfig", field: dc.Field, value: Any) -> None:
+    """Check that the disabled syntax elements are a list of strings,
+    which leaves the parser a rule for every line."""
+    deep_iterable(instance_of(str), instance_of((list, tuple)))(inst, field, value)
+    if "paragraph" in value:
+        # the paragraph rule is the fallback of the block parser:
+        # without it a line no other rule accepts is never consumed
+        raise ValueError(f"'{field.name}' must not contain 'paragraph'")
+
+
 class UrlSchemeType(TypedDict, total=False):
     """Type of the external schemes dictionary."""
 
@@ -229,7 +239,7 @@ class MdParserConfig:
     disable_syntax: Iterable[str] = dc.field(
         default_factory=list,
         metadata={
-            "validator": deep_iterable(instance_of(str), instance_of((list, tuple))),
+            "validator": check_disable_syntax,
             "help": "Disable Commonmark syntax elements",
         },
     )
